@@ -11,6 +11,8 @@ CHECKS = {
          "rules built field by field, re-parsed from text on replay; netip globals imported from the native process; engine; z3"),
  "C06": ("NewMatchingResult+GetBasicResult (k<=2/3 request and s<=2 referrer rules) and GetDNSBasicRule (k<=3/4) over arbitrary symbolic rules against the order-free documented precedence; selected rule never outranked (C07); verdict unchanged by adding a rule with its badfilter twin at any positions (C08)",
          "InvRule; MatchAll results are the harness lists (engine wiring outside); engine; z3"),
+ "C18": ("NewRule on hosts-file lines: address from a menu of 5 literals, 1..2 (thorough 1..3) names of symbolic bytes, symbolic blank/tab separators, comments attached or after blanks with symbolic bytes, trailing blanks, bare domains; Hostnames/IP/list id exact and Match(q) iff q listed for symbolic q",
+         "netip.ParseAddr native on concrete literals, modelled as rejecting on digit-free symbolic tokens; engine; z3"),
  "C16": ("unbounded in the fields the function reads (64-bit option word, 32-bit mask, exception flag fully symbolic under the parser's representation invariant); counterexamples replayed from rule text through the real parser",
          "InvRule on option words (validated natively on the repo's own rule corpus); go/ssa lowering; engine; z3"),
 }
